@@ -5,6 +5,7 @@ to their result only elements of the input path, inside loops through forward-on
 construction; (MONO) keep/remove flags are monotone, so end points flagged by the caller stay flagged; (ERASE)
 StripDuplicates only erases.  The epsilon guarantees, area preservation and idempotence are NOT decided.
 """
+from ..extract import AnalysisBroken
 from ..astq import AstDB
 from ..engines import e11_paths as e11
 
@@ -23,12 +24,16 @@ def run(chk):
              "is re-pointed to the candidate whenever one is kept")
     chk.rule("EPS.threshold", "every comparison of a squared distance with the squared epsilon in SimplifyPath and RDP draws the line at "
              "'removable iff distance <= epsilon' (all sites agree)")
+    chk.rule("EPS.degree", "every argument bound to an epsilon / squared-epsilon parameter has that parameter's degree (Sqr doubles it, a local has its "
+             "initialiser's): the threshold applied by the callee is the caller's epsilon, not its square or root")
     chk.rule("NEIGHBOURS.fresh", "SimplifyPath: after a removal the two distances next to the gap are recomputed from the vertices' own surviving "
              "neighbours (one loop iteration interpreted on a generic ring, both outcomes of the smaller-distance test)")
     chk.rule("POLY.cross", "CrossProductSign / IsCollinear / ProductsAreEqual compare two products whose difference is identically the cross product "
              "(pt2-pt1)x(pt3-pt2); portable path: magnitudes and signs of the same factors; 128-bit tail returns sign(ab-cd) / (ab==cd) on every ordering")
     chk.rule("POLY.measure", "CrossProduct, DotProduct, DistanceSqr, PerpendicDistFromLineSqrd, GetClosestPointOnSegment equal their defining "
              "real-number formulas (identity of polynomial normal forms; rounding not decided)")
+    chk.rule("POLY.utilities", "Ellipse: first vertex center + (rx, 0), vertex i = center + (rx dx, ry dy), the direction starts as (cos A, sin A) and is turned by A "
+             "using the old dx for the new dy; TranslatePath adds (dx, dy) to every vertex (identities of polynomial normal forms)")
     chk.rule("ERASE", "StripDuplicates calls only erase / pop_back on its path")
     chk.rule("BOUNDS.minmax", "GetBounds (every overload): the per-vertex update leaves min' = min(min, v) and max' = max(max, v) in all four "
              "situations of a coordinate, the sentinel state (both at once) included - its defining equation")
@@ -40,12 +45,15 @@ def run(chk):
         e11.rule_pinned_ends(db, chk, cfg)
         e11.rule_trim_last_kept(db, chk, cfg)
         e11.rule_eps_threshold(db, chk, cfg)
+        if e11.rule_eps_degree(db, chk, cfg) < 6:
+            raise AnalysisBroken("EPS.degree: fewer than 6 tolerance arguments with a derivable degree in configuration %s" % cfg)
         e11.rule_simplify_neighbours(db, chk, cfg)
         from ..engines import e3_tables as e3
         e3.bounds_update_table(db, chk, cfg)
         from ..engines import e14_poly as e14
         e14.rule_cross(db, chk, cfg)
         e14.rule_measure(db, chk, cfg)
+        e14.rule_utilities(db, chk, cfg)
     n = len(cfgs)
     chk.floor("MEMBER", 12 * n)
     chk.floor("MONO", 3 * n)
